@@ -102,8 +102,13 @@ def literal(tok):
     if tok[0] == 'num':
         return ['num', None, int(tok[1])]
     m = re.match(r"(\d+)\s*'([hdbHDB])([0-9a-fA-F_]+)$", tok[1])
+    if m is None:
+        raise VParseError('malformed sized literal %r' % (tok[1],))
     base = {'h': 16, 'd': 10, 'b': 2}[m.group(2).lower()]
-    return ['num', int(m.group(1)), int(m.group(3).replace('_', ''), base)]
+    try:
+        return ['num', int(m.group(1)), int(m.group(3).replace('_', ''), base)]
+    except ValueError:
+        raise VParseError('digits of %r are not base-%d digits' % (tok[1], base))
 
 
 class ExprParser(object):
